@@ -569,7 +569,8 @@ def validate_records(chk, recs, meta, label):
             for r in recs:
                 f.write(json.dumps(r, separators=(",", ":")) + "\n")
         res = tlc.run_tlc("MC_Prims", cfg_text=cfg("InitRec", ["ImplRec"]), env={"TRACE_FILE": tf, "CASE_FILE": tf, "JDK_JAVA_OPTIONS": "-Xss256m"},
-                          timeout=1800, name="Prims/records:" + label)
+                          timeout=1800, name="Prims/records:" + label, heap="6g",
+                          workers=max(1, min(8, int(os.environ.get("VERIF_TLC_WORKERS", "16")))))
     finally:
         shutil.rmtree(wd, ignore_errors=True)
     if res["error_kind"] or not res["finished"] or res["distinct"] != len(recs):
@@ -655,7 +656,7 @@ def main(tier, seed):
         if x >= 0:
             one_record(chk, "Unsigned", int_limbs(x), -1 if x % 3 else BOUNDARY_CTX[x % 6], recs, meta)
     chk.extra["exhaustive_small_numbers"] = {"Integer": [-lim, lim], "Unsigned": [0, lim]}
-    B = 80000
+    B = 25000
     for i in range(0, len(recs), B):
         part = recs[i:i + B]
         validate_records(chk, [dict(r, id=j + 1) for j, r in enumerate(part)], {j + 1: meta[r["id"]] for j, r in enumerate(part)}, "random+small[%d]" % (i // B))
